@@ -52,6 +52,24 @@ def sigmaOf (tab : Array Nat) (size dim : Nat) (k i d : Nat) : Nat :=
 def baseClauses (g : G) : List (String × Bool) :=
   (validSym g).map (fun c => ("input-" ++ c.1, c.2)) ++ [("input-connected", SpecC05.connected g)]
 
+/-- ops ending in `_dc` run on bases with several components (outside the quantifier of the
+    property): no connectedness clause on the input, and the cover is connected only after joining
+    the sheets across the components -/
+def isDc (op : String) : Bool := op.endsWith "_dc"
+
+def baseClausesOf (dc : Bool) (g : G) : List (String × Bool) :=
+  if dc then
+    (validSym g).map (fun c => ("input-" ++ c.1, c.2)) ++
+      [("input-has-several-components", !(SpecC05.connected g))]
+  else baseClauses g
+
+/-- what is demanded of one table cover -/
+def tableCoverClauses (dc : Bool) (g cg : G) : List (String × Bool) :=
+  if dc then
+    coveringClauses g cg ++
+      [("cover-is-connected-after-joining-each-sheet-across-the-components", connectedJoined g cg)]
+  else connectedCoveringClauses g cg
+
 /-- the hypotheses of the theorems of Props/C05.lean, evaluated on this input
     (`monitors_sound`: true ⇒ the hypothesis holds) -/
 def hypBase (s : RawSym) : List (String × Bool) :=
@@ -85,10 +103,56 @@ def encCovers (o : Outcome (List DSymData)) : String :=
   | .err => "MODEL-FUEL"
   | .panic => "PANIC"
 
-def handler : Handler := fun op inp out =>
+/-- ops ending in `_s` are the same calls with the base symbol held as `SimpleDSym` (converted
+    from the `PartialDSym`, or an object the library's symbol generator yielded): same model, same Spec -/
+def stripS (op : String) : String := if op.endsWith "_s" then (op.dropRight 2) else op
+
+/-! ### comparison up to isomorphism over the base
+
+The property fixes a cover built from a coset table (`subgroup_cover`, `finite_universal_cover`,
+the entries of `covers`) only up to isomorphism over the base: the numbering of the sheets is the
+numbering of the rows of a coset table, which the property does not mention.  For these ops the
+model payload is compared with the implementation's output up to an isomorphism over the base
+(`SpecC05.isoOver`: chamber bijection commuting with every operation, preserving the branching
+numbers, commuting with the projection; on a base with several components `isoOverJoined`: in
+addition inducing one permutation of the sheets).  When they agree the implementation's own tokens
+are echoed as the model payload, otherwise the model's payload is printed so that the orchestrator
+reports the disagreement with both sides.  `covers` is compared entry by entry, in order (the order
+of the list is that of the coset-table enumeration, which the model reproduces).  The comparison
+stays exact for `derived::cover` driven with an explicit sheet map and for `oriented_cover`
+(numbering determined by the inputs). -/
+
+def symOfPayload (s : String) : Option RawSym :=
+  run P.rawSym ((s.splitOn " ").filter (· != "")).toArray
+
+def isoAsCovers (dc : Bool) (g mg cg : G) : Bool :=
+  if dc then isoOverJoined g mg cg else isoOver g mg cg
+
+/-- one cover -/
+def upToIso (dc : Bool) (g : G) (model : String) (out : Array String) : String :=
+  let impl := joinToks out.toList
+  if model == impl then model else
+  match symOfPayload model, run P.rawSym out with
+  | some m, some c => if isoAsCovers dc g (specG m) (specG c) then impl else model
+  | _, _ => model
+
+/-- a list of covers, entry by entry in order -/
+def upToIsoList (dc : Bool) (g : G) (model : String) (out : Array String) : String :=
+  let impl := joinToks out.toList
+  if model == impl then model else
+  match run P.syms ((model.splitOn " ").filter (· != "")).toArray, run P.syms out with
+  | some ms, some cs =>
+    if ms.length == cs.length &&
+        (ms.zip cs).all (fun (mc : RawSym × RawSym) => isoAsCovers dc g (specG mc.1) (specG mc.2))
+    then impl else model
+  | _, _ => model
+
+def handler : Handler := fun op0 inp out =>
+  let op := stripS op0
   let bad := ("-", fail "driver-cannot-parse-input")
   match op with
-  | "cover" =>
+  | "cover" | "cover_dc" =>
+    let dc := isDc op
     match run (do let s ← P.rawSym; let n ← P.nat; let tab ← P.nats; pure (s, n, tab)) inp with
     | some (s, n, tab) =>
       let g := specG s
@@ -104,13 +168,13 @@ def handler : Handler := fun op inp out =>
             | .ok y => sheetCompatB y.dset n sigma == sheetMapCompatible g n sigma
             | _ => false)]
       if !compat then
-        (model, check (baseClauses g ++ hyp ++ [("incompatible-sheet-map-must-be-rejected", isPanic out)]))
+        (model, check (baseClausesOf dc g ++ hyp ++ [("incompatible-sheet-map-must-be-rejected", isPanic out)]))
       else
         match run P.rawSym out with
         | some c =>
           let cg := specG c
           let divides := orbitLengthsDivideDegrees g cg
-          (model, check (baseClauses g ++ hyp ++
+          (model, check (baseClausesOf dc g ++ hyp ++
             [ ("cover-has-the-dimension-of-the-base", cg.dim == g.dim),
               ("cover-has-the-requested-number-of-sheets", sheets g cg == some n),
               ("cover-operations-are-involutions-in-range", cg.involutive),
@@ -118,10 +182,17 @@ def handler : Handler := fun op inp out =>
               ("projection-commutes-with-every-operation", projCommutes g cg),
               ("every-fibre-has-the-same-number-of-chambers", uniformFibres g cg n),
               ("degrees-preserved-when-orbit-lengths-divide",
-                  !divides || (isValidSym cg && degreesPreserved g cg)) ]))
+                  !divides || (isValidSym cg && degreesPreserved g cg)),
+              -- cover_preserves_degrees_iff: the stored branching number is ⌊m / r⌋, so the degrees
+              -- are preserved exactly when the orbit lengths divide the base degrees (a sheet map
+              -- violating that is a caller error, answered with the floor — not a violation)
+              ("branching-number-is-floor-of-base-degree-over-orbit-length", branchingIsFloor g cg),
+              ("degrees-preserved-iff-orbit-lengths-divide",
+                  adjacentPreserved g cg == adjacentDivides g cg) ]))
         | none => (model, fail "compatible-sheet-map-must-give-a-cover")
     | none => bad
-  | "oriented" =>
+  | "oriented" | "oriented_dc" =>
+    let dc := isDc op
     match run P.rawSym inp with
     | some s =>
       let g := specG s
@@ -131,14 +202,16 @@ def handler : Handler := fun op inp out =>
       match run P.rawSym out with
       | some c =>
         let cg := specG c
-        (model, check (baseClauses g ++ hypBase s ++ connectedCoveringClauses g cg ++
+        (model, check (baseClausesOf dc g ++ hypBase s ++
+          (if dc then coveringClauses g cg else connectedCoveringClauses g cg) ++
           [ ("oriented-cover-is-loopless", cg.loopless),
             ("oriented-cover-is-bipartite", cg.bipartite),
             ("one-sheet-iff-base-oriented-else-two",
                 sheets g cg == some (if oriented g then 1 else 2)) ]))
       | none => (model, fail "no-cover-returned")
     | none => bad
-  | "covers" =>
+  | "covers" | "covers_dc" =>
+    let dc := isDc op
     match run (do
         let s ← P.rawSym; let k ← P.nat; let cnt ← P.nat
         let known ← (if cnt == 2 then P.nats else pure [])
@@ -150,14 +223,23 @@ def handler : Handler := fun op inp out =>
           if wiredOK gd then encCovers (Covers.coversAll y k)
           else encCovers (coversOfTables y gd.tables gd.e2w)
         | _ => "PANIC"
+      let model := upToIsoList dc g model out
       match run P.syms out with
       | some cs =>
         let cgs := cs.map specG
-        (model, check (baseClauses g ++ hypBase s ++ hypTables s gd ++
-          (cgs.flatMap fun cg => connectedCoveringClauses g cg ++
+        (model, check (baseClausesOf dc g ++ hypBase s ++ hypTables s gd ++
+          (cgs.flatMap fun cg => tableCoverClauses dc g cg ++
             [("at-most-k-sheets", match sheets g cg with | some j => j ≤ k | none => false)]) ++
-          [ ("pairwise-non-isomorphic-as-covers", nonIsomorphicOver g cgs) ] ++
-          (if cnt == 1 then
+          (if dc then
+            -- several components: two entries may be isomorphic as coverings of the base (one
+            -- sheet permutation per component) although their subgroups of the free product are
+            -- not conjugate; what is demanded is non-isomorphism by ONE sheet permutation
+            [ ("pairwise-non-isomorphic-as-covers-of-the-joined-base", pairwiseNonIsomorphicJoined g cgs) ]
+           else [ ("pairwise-non-isomorphic-as-covers", nonIsomorphicOver g cgs) ]) ++
+          (if cnt == 1 && dc then
+            [("one-cover-per-conjugacy-class-of-subgroups-of-index-at-most-k-of-the-free-product",
+                countsAgreeJoined g k cgs)]
+           else if cnt == 1 then
             [("one-cover-per-conjugacy-class-of-subgroups-of-index-at-most-k", countsAgree g k cgs)]
            else if cnt == 2 then
             -- independently known numbers of classes by index (tools/c05_known_counts.py); the
@@ -173,7 +255,8 @@ def handler : Handler := fun op inp out =>
   | "covers_skipped" =>
     -- the library returned more covers than the harness' cap: nothing is claimed for this case
     ("-", ok)
-  | "subgroup" | "universal" =>
+  | "subgroup" | "universal" | "subgroup_dc" | "universal_dc" | "table" | "table_dc" =>
+    let dc := isDc op
     match run (do let s ← P.rawSym; let subs ← P.intss; let gd ← P.groupData; pure (s, subs, gd)) inp with
     | some (s, subs, gd) =>
       let g := specG s
@@ -185,11 +268,24 @@ def handler : Handler := fun op inp out =>
              | o => encOut o)
           else encOut (coverForTable y t gd.e2w)
         | _, _ => "-"
+      -- `table` = `cover_for_table` called directly: sheet numbering = row numbering of the given table
+      let model := if op == "table" || op == "table_dc" then model else upToIso dc g model out
       match run P.rawSym out with
       | some c =>
         let cg := specG c
-        (model, check (baseClauses g ++ hypBase s ++ hypTables s gd ++ connectedCoveringClauses g cg ++
-          (if op == "universal" then
+        (model, check (baseClausesOf dc g ++ hypBase s ++ hypTables s gd ++ tableCoverClauses dc g cg ++
+          (if op == "universal_dc" then
+            [ ("universal-cover-has-no-mirrors", cg.loopless),
+              ("universal-cover-is-orientable", cg.bipartite) ] ++
+            (if g.dim == 2 then
+              [ ("curvature-is-multiplicative",
+                  match curvature g, curvature cg, sheets g cg with
+                  | some kb, some kc, some n => Q.eq kc (kb.mulNat n)
+                  | _, _, _ => false) ]
+             else
+              [ ("universal-cover-3d-has-trivial-branching",
+                  (List.range cg.dim).all fun i => cg.chambers.all fun d => cg.v i d == 1) ])
+           else if op == "universal" then
             [ ("universal-cover-has-no-mirrors", cg.loopless),
               ("universal-cover-is-orientable", cg.bipartite) ] ++
             (if g.dim == 2 then
@@ -210,13 +306,13 @@ def handler : Handler := fun op inp out =>
            else [])))
       | none => (model, fail "no-cover-returned")
     | none => bad
-  | "pi1_universal" =>
+  | "pi1_universal" | "pi1_universal_dc" =>
     match run P.rawSym inp with
     | some s =>
       let g := specG s
       match run (do let gens ← P.nat; let rels ← P.intss; pure (gens, rels)) out with
       | some (gens, rels) =>
-        ("-", check (baseClauses g ++
+        ("-", check (baseClausesOf (isDc op) g ++
           [ ("fundamental-group-of-universal-cover-is-trivial",
               presentationTrivial gens rels == some true) ]))
       | none => ("-", fail "no-group-returned")
